@@ -177,3 +177,12 @@ package segread
 //@   site call bs.UnmarshalBinary #1:
 //@     assert [the-bitset-library-only-sees-a-bit-set-whose-count-fits] len(arg1) >= 8 && pqBe64(arg1[0:8]) <= uint64(len(arg1) - 8) * 8
 //@ end
+
+// frame by exclusion, ASSUMED: reading the timestamp of one record (which may
+// load and decode the block's timestamp column into the reader's own buffers)
+// never writes a query's time range
+//@ func (*MultiColSegmentReader).GetTimeStampForRecord
+//@   assumed
+//@   preserves fieldsof(dtypeutils.TimeRange)
+//@   note ASSUMED frame: the time reader writes its own buffers and block bookkeeping only
+//@ end
